@@ -1,7 +1,27 @@
-use crate::State;
+// C11-C13: pure codecs (hashes, cipher, textures).
 use crate::util::*;
-use serde_json::Value;
+use crate::{State, guarded};
+use serde_json::{Value, json};
 
-pub fn run(_st: &mut State, op: &str, _cmd: &Value) -> Value {
-    toolerror(&format!("unknown op {op}"))
+pub fn run(_st: &mut State, op: &str, cmd: &Value) -> Value {
+    match op {
+        "codec.hash" => {
+            let mut out = vec![];
+            for s in cmd["ss"].as_array().cloned().unwrap_or_default() {
+                let b = get_bytes(&s);
+                let Ok(text) = String::from_utf8(b) else {
+                    out.push(json!({"outcome": "notutf8"}));
+                    continue;
+                };
+                out.push(guarded(|| {
+                    value(json!({
+                        "partial": w32(physis::sqpack::SqPackIndex::calculate_partial_hash(&text)),
+                        "shcrc": w32(physis::shpk::ShaderPackage::crc(&text)),
+                    }))
+                }));
+            }
+            Value::Array(out)
+        }
+        _ => toolerror(&format!("unknown op {op}")),
+    }
 }
